@@ -472,8 +472,14 @@ type gridCase struct {
 // element (Name "" when declined).
 func negotiateOnce(cfg, of spec, opt httphead.Option) (e ext, msg string) {
 	x := wsflate.Extension{Parameters: cfg.lib()}
+	return checkOn(&x, of, opt)
+}
+
+// checkOn negotiates of on x, which must be new or just Reset.
+func checkOn(x *wsflate.Extension, of spec, opt httphead.Option) (e ext, msg string) {
+	cfg := x.Parameters
 	if p, ok := x.Accepted(); ok || p != (wsflate.Parameters{}) {
-		return e, fmt.Sprintf("fresh Extension reports Accepted() = %+v, %v", p, ok)
+		return e, fmt.Sprintf("new / reset Extension reports Accepted() = %+v, %v", p, ok)
 	}
 	ans, err := x.Negotiate(opt)
 	if err != nil {
@@ -490,7 +496,7 @@ func negotiateOnce(cfg, of spec, opt httphead.Option) (e ext, msg string) {
 	if answered && p != of.lib() {
 		return e, fmt.Sprintf("Accepted() parameters %+v, the accepted offer was %+v", p, of.lib())
 	}
-	if x.Parameters != cfg.lib() {
+	if x.Parameters != cfg {
 		return e, fmt.Sprintf("Negotiate changed the configuration to %+v", x.Parameters)
 	}
 	return e, ""
@@ -740,6 +746,10 @@ func listConfigs() []spec {
 	if hx.Thorough() {
 		return allConfigs
 	}
+	return subConfigs()
+}
+
+func subConfigs() []spec {
 	var out []spec
 	for _, a := range bools {
 		for _, s := range []int{0, 8, 11, 15} {
@@ -1429,17 +1439,25 @@ type resetCase struct {
 	Then    []string `json:"continuation"`
 }
 
-// TestReset: arbitrary history (may end in an error), Reset, continuation —
-// against a fresh Extension with the same Parameters; the continuation also
-// has to satisfy the list oracle.
+// TestReset: arbitrary history (may end in an error) under configuration A,
+// Reset, the exported Parameters field set to configuration B (drawn; equal
+// to A in about a third of the cases), continuation — step by step against a
+// fresh Extension{Parameters: B}; the continuation also has to satisfy the
+// list oracle (legality of every answer) for B. The type is documented as
+// reusable between upgrades with Reset() after each, and Parameters is an
+// exported field, so reconfiguring between upgrades is legitimate use.
 func TestReset(t *testing.T) {
 	hx.Check(t, 20, func(t *rapid.T) {
 		cfg := drawSpec(t, "cfg", cmwbConfig)
 		rounds := rapid.IntRange(1, 3).Draw(t, "rounds")
 		x := wsflate.Extension{Parameters: cfg.lib()}
 		var hist []string
-		accepted := false
-		for r := 0; r < rounds; r++ {
+		accepted, reconfigured := false, false
+		for r := 0; ; r++ {
+			hist = append(hist, "<config "+cfg.String()+">")
+			if r == rounds {
+				break
+			}
 			items := drawItems(t, fmt.Sprintf("hist%d", r), cfg, 3, true)
 			steps, msg := feed(&x, items, rapid.Bool().Draw(t, "text"))
 			if msg != "" {
@@ -1449,24 +1467,27 @@ func TestReset(t *testing.T) {
 				accepted = accepted || s.ok
 			}
 			hist = append(hist, describe(items)...)
-			if r < rounds-1 {
-				hist = append(hist, "<Reset>")
-				x.Reset()
+			hist = append(hist, "<Reset>")
+			x.Reset()
+			if p, ok := x.Accepted(); ok || p != (wsflate.Parameters{}) {
+				t.Fatalf("after Reset Accepted() = %+v, %v; a new Extension reports zero parameters and false\nhistory %q", p, ok, hist)
 			}
-		}
-		x.Reset()
-		if p, ok := x.Accepted(); ok || p != (wsflate.Parameters{}) {
-			t.Fatalf("after Reset Accepted() = %+v, %v; a new Extension reports zero parameters and false\nconfig %s history %q", p, ok, cfg, hist)
-		}
-		if x.Parameters != cfg.lib() {
-			t.Fatalf("Reset changed the configuration to %+v", x.Parameters)
+			if x.Parameters != cfg.lib() {
+				t.Fatalf("Reset changed the configuration to %+v", x.Parameters)
+			}
+			if rapid.IntRange(0, 2).Draw(t, fmt.Sprintf("reconf%d", r)) != 0 {
+				next := drawSpec(t, fmt.Sprintf("cfg%d", r+1), cmwbConfig)
+				reconfigured = reconfigured || next != cfg
+				cfg = next
+				x.Parameters = cfg.lib()
+			}
 		}
 		cont := drawItems(t, "cont", cfg, 3, true)
 		useText := rapid.Bool().Draw(t, "text2")
 		hx.Eval()
-		hx.Class(fmt.Sprintf("reset/history-accepted=%v/cont:%s", accepted, listClass(cfg, cont)))
+		hx.Class(fmt.Sprintf("reset/history-accepted=%v/reconfigured=%v/cont:%s", accepted, reconfigured, listClass(cfg, cont)))
 		if accepted && len(cont) > 0 {
-			hx.NonTrivial(hx.Hash("reset", cfg, hist, describe(cont)), func() interface{} {
+			hx.NonTrivial(hx.Hash("reset", hist, describe(cont)), func() interface{} {
 				return resetCase{cfg.String(), hist, describe(cont)}
 			})
 		}
@@ -1486,6 +1507,64 @@ func TestReset(t *testing.T) {
 			t.Fatalf("after Reset: %s\nconfig: %s\nhistory: %q\ncontinuation: %q", msg, cfg, hist, describe(cont))
 		}
 	})
+}
+
+// TestReuseGrid: one Extension reused across upgrades. Under configuration A
+// an offer every configuration of the grid answers is negotiated, then for
+// each offer of a sub-alphabet: Reset, Parameters = B, negotiate — legality
+// of the answer for B's offer, same answer and Accepted() as a fresh
+// Extension{Parameters: B}. All ordered pairs (A, B) of the list
+// configurations (thorough: A over all 324, B over the 32-element subset).
+func TestReuseGrid(t *testing.T) {
+	as := listConfigs()
+	bs := subConfigs()
+	alpha := subAlphabet([]int{0, 8, 11, 15}, []int{0, 1, 8, 11, 15})
+	opener := spec{CMWB: 15} // answered by every configuration with ClientMaxWindowBits <= 15
+	var n int64
+	for ai, a := range as {
+		if !hx.Mine(ai) {
+			continue
+		}
+		for bi, b := range bs {
+			x := wsflate.Extension{Parameters: a.lib()}
+			e, msg := checkOn(&x, opener, direct(ext{extName, opener.params()}))
+			if msg == "" && e.Name == "" {
+				hx.Class("reuse/opener-declined")
+			}
+			if msg != "" {
+				hx.Failf(t, resetCase{Config: a.String(), Then: []string{opener.String()}}, "%s", msg)
+				return
+			}
+			for oi, of := range alpha {
+				n++
+				x.Reset()
+				x.Parameters = b.lib()
+				el := ext{extName, rotate(of.params(), ai+bi+oi)}
+				got, msg := checkOn(&x, of, direct(el))
+				hist := []string{"<config " + a.String() + ">", opener.String(), "<Reset>", "<config " + b.String() + ">", "... <Reset> after each offer"}
+				if msg != "" {
+					hx.Failf(t, resetCase{b.String(), hist, []string{el.String()}}, "reused Extension: %s (answer %q)", msg, got.String())
+					return
+				}
+				want, msg := negotiateOnce(b, of, direct(el))
+				if msg != "" {
+					hx.Failf(t, resetCase{b.String(), nil, []string{el.String()}}, "fresh Extension: %s", msg)
+					return
+				}
+				if got.String() != want.String() {
+					hx.Failf(t, resetCase{b.String(), hist, []string{el.String()}}, "reused Extension answers %q, a fresh Extension with the same Parameters %q", got.String(), want.String())
+					return
+				}
+				if got.Name != "" && a != b {
+					hx.NonTrivial(hx.Hash("reuse", a, b, oi), func() interface{} {
+						return resetCase{b.String(), hist, []string{el.String()}}
+					})
+				}
+			}
+		}
+	}
+	hx.EvalN(int(n))
+	hx.Part(fmt.Sprintf("reuse: %d x %d ordered configuration pairs (A, Reset, Parameters=B) x 40 offers", len(as), len(bs)), n, true)
 }
 
 // ---------------------------------------------------------------------------
